@@ -54,6 +54,12 @@ type Rec struct {
 	// Go call site to the violations the Coq monitor reports (tags of known findings)
 	path  map[int]*pathState
 	viols []Viol
+	// shadow of the per canvas resources (rules 8, 12, 13 of Draw/Protocol.v)
+	fontsOn   map[[2]int]bool // (canvas, font) registered by AddFont on that canvas
+	pending   map[int]int     // group -> parent canvas, until it is consumed
+	groupSite map[int]string  // /repo call site of the NewGroup
+	dirty     map[int]bool    // canvases that received painting
+	finished  bool
 }
 
 type pathState struct{ hasPath, hasPoint bool }
@@ -105,6 +111,34 @@ func (r *Rec) viol(rule int, what string) {
 
 func (r *Rec) shadow() []Viol { return r.viols }
 
+// consume: group g is handed to canvas c (DrawWithOpacity / SetColorPattern / SetAlphaMask)
+func (r *Rec) consume(c, g int, what string) {
+	if p, ok := r.pending[g]; !ok || p != c {
+		r.viol(12, what+" with a canvas that is not an unconsumed group of this canvas")
+	}
+	delete(r.pending, g)
+}
+
+// finish adds the final condition (rule 13): a group that received painting and was
+// never composited.  Reported at index len(Ev), with the call site of its NewGroup.
+func (r *Rec) finish() {
+	if r.finished {
+		return
+	}
+	r.finished = true
+	var gs []int
+	for g := range r.pending {
+		if r.dirty[g] {
+			gs = append(gs, g)
+		}
+	}
+	sort.Ints(gs)
+	for _, g := range gs {
+		r.viols = append(r.viols, Viol{I: len(r.Ev), Rule: 13,
+			What: fmt.Sprintf("group %d of canvas %d received painting and was never composited", g, r.pending[g]), Site: r.groupSite[g]})
+	}
+}
+
 // tags of the violations of one rule: one per site, and "rule<r>-only@<site>"
 // when every violation of the rule comes from that single site
 func (r *Rec) shadowTags(rule int) []string {
@@ -140,7 +174,8 @@ type RecBox struct {
 }
 
 func NewRec() *Rec {
-	return &Rec{Meta: map[string][]string{}, fonts: map[backend.Font]int{}, fontReg: map[int]bool{}}
+	return &Rec{Meta: map[string][]string{}, fonts: map[backend.Font]int{}, fontReg: map[int]bool{},
+		fontsOn: map[[2]int]bool{}, pending: map[int]int{}, groupSite: map[int]string{}, dirty: map[int]bool{}}
 }
 
 // maxEvents bounds a recorded trace: a drawing loop that never ends (a hang,
@@ -300,6 +335,8 @@ func (c *canvas) State() backend.GraphicState { return (*gstate)(c) }
 func (c *canvas) NewGroup(x, y, width, height Fl) backend.Canvas {
 	c.rec.nextID++
 	g := &canvas{rec: c.rec, id: c.rec.nextID}
+	c.rec.pending[g.id] = c.id
+	c.rec.groupSite[g.id] = repoSite()
 	c.rec.add(Ev{Op: "CNewGroup", C: c.id, G: g.id, HasG: true, Nums: []Fl{x, y, width, height}})
 	return g
 }
@@ -315,6 +352,10 @@ func gid(g backend.Canvas) int {
 }
 
 func (c *canvas) DrawWithOpacity(opacity Fl, group backend.Canvas) {
+	c.rec.consume(c.id, gid(group), "DrawWithOpacity")
+	if c.rec.dirty[gid(group)] {
+		c.rec.dirty[c.id] = true
+	}
 	c.rec.add(Ev{Op: "CDrawWithOpacity", C: c.id, G: gid(group), HasG: true, Nums: []Fl{opacity}})
 }
 
@@ -324,6 +365,7 @@ func (c *canvas) Paint(op backend.PaintOp) {
 	} else {
 		st.hasPath, st.hasPoint = false, false
 	}
+	c.rec.dirty[c.id] = true
 	c.rec.add(Ev{Op: "CPaint", C: c.id, G: int(op), HasG: true})
 }
 func (c *canvas) Rectangle(x, y, w, h Fl) {
@@ -361,6 +403,7 @@ func (c *canvas) ClosePath() {
 func (c *canvas) AddFont(font backend.Font, content []byte) *backend.FontChars {
 	id := c.rec.fontID(font)
 	c.rec.fontReg[id] = true
+	c.rec.fontsOn[[2]int{c.id, id}] = true
 	c.rec.add(Ev{Op: "CAddFont", C: c.id, G: id, HasG: true})
 	return &backend.FontChars{Cmap: map[backend.GID][]rune{}, Extents: map[backend.GID]backend.GlyphExtents{}}
 }
@@ -370,16 +413,21 @@ func (c *canvas) DrawText(texts []backend.TextDrawing) {
 		nums := []Fl{t.X, t.Y, t.FontSize, t.ScaleX, t.Angle}
 		var fonts []int
 		for _, run := range t.Runs {
+			if f := c.rec.fontID(run.Font); !c.rec.fontsOn[[2]int{c.id, f}] {
+				c.rec.viol(8, fmt.Sprintf("DrawText with font %d never registered by AddFont on canvas %d", f, c.id))
+			}
 			fonts = append(fonts, c.rec.fontID(run.Font))
 			for _, g := range run.Glyphs {
 				nums = append(nums, g.Offset, g.Rise, g.XAdvance)
 			}
 		}
+		c.rec.dirty[c.id] = true
 		c.rec.add(Ev{Op: "CDrawText", C: c.id, Nums: nums, Fonts: fonts, S: string(t.Text)})
 	}
 }
 
 func (c *canvas) DrawRasterImage(image backend.RasterImage, width, height Fl) {
+	c.rec.dirty[c.id] = true
 	c.ev("CDrawImage", width, height)
 }
 
@@ -395,6 +443,7 @@ func (c *canvas) DrawGradient(gradient backend.GradientLayout, width, height Fl)
 	for _, col := range gradient.Colors {
 		nums = append(nums, col.R, col.G, col.B, col.A)
 	}
+	c.rec.dirty[c.id] = true
 	c.ev("CDrawGradient", nums...)
 }
 
@@ -404,6 +453,7 @@ type gstate canvas
 
 func (g *gstate) c() *canvas { return (*canvas)(g) }
 func (g *gstate) SetAlphaMask(mask backend.Canvas) {
+	g.rec.consume(g.id, gid(mask), "SetAlphaMask")
 	g.rec.add(Ev{Op: "CSetAlphaMask", C: g.id, G: gid(mask), HasG: true})
 }
 
@@ -425,6 +475,7 @@ func (g *gstate) SetColorRgba(color parser.RGBA, stroke bool) {
 }
 
 func (g *gstate) SetColorPattern(pattern backend.Canvas, contentWidth, contentHeight Fl, mat matrix.Transform, stroke bool) {
+	g.rec.consume(g.id, gid(pattern), "SetColorPattern")
 	g.rec.add(Ev{Op: "CSetColorPattern", C: g.id, G: gid(pattern), HasG: true,
 		Nums: []Fl{contentWidth, contentHeight, mat.A, mat.B, mat.C, mat.D, mat.E, mat.F}})
 }
